@@ -5,6 +5,8 @@ import (
 	"fmt"
 	"math"
 
+	"verif/internal/props/c02"
+
 	"github.com/tdewolff/canvas"
 
 	"verif/internal/cv"
@@ -244,8 +246,23 @@ func families(tier string) []fw.Family {
 		}
 	}
 	tri4q := single(oracle.ContoursModRotation(oracle.Lattice(4), 3))
+	// P = a square, Q = two separate rectangles inside it (Not/Xor give several sibling holes), and
+	// P = the square with those two holes against bars crossing it
+	var outerSq, twoIn, twoHoled [][][]oracle.Pt
+	outerSq = [][][]oracle.Pt{{rect(0, 0, 6, 6, true)}}
+	for _, sh := range c02.TwoHoles([][2]bool{{true, true}}) {
+		twoIn = append(twoIn, sh[1:])
+	}
+	for i, sh := range c02.TwoHoles([][2]bool{{false, false}}) {
+		if i%7 == 0 {
+			twoHoled = append(twoHoled, sh)
+		}
+	}
+	bars := [][][]oracle.Pt{{rect(-1, 2, 7, 3, true)}, {rect(3, -1, 4, 7, true)}, {rect(5, 3, 8, 4, true)}, {rect(7, 0, 9, 2, true)}}
 	var fs []fw.Family
 	fs = append(fs,
+		pairFamily("square(L7) x two separate rectangles inside it", outerSq, twoIn, 1, oracle.Pt{}, 1e-8, 1e-6, false),
+		pairFamily("square with two holes (L7, every 7th) x bars", twoHoled, bars, 1, oracle.Pt{}, 1e-8, 1e-6, false),
 		pairFamily("tri(L4)/rot x zero-area spikes(L4)", tri4q, spikes4, 1, oracle.Pt{}, 1e-8, 1e-6, false),
 		pairFamily("zero-area spikes(L4) x tri(L4)/rot", spikes4, tri4q, 1, oracle.Pt{}, 1e-8, 1e-6, false),
 		pairFamily("tri(L3)xtri(L3)", tri3, tri3, 1, oracle.Pt{}, 1e-8, 1e-6, false),
